@@ -263,7 +263,9 @@ ResultType(U, kind, ops, x) ==
 (* GETELEMENTPTR (C07).  An index is a record                              *)
 (*   [f, w, val, vec, sc, ir]                                              *)
 (* f   form: "int" (integer literal, w = 1: false/true), "zeroinit",       *)
-(*     "splat" (constant vector, all elements val), "nonsplat", "undef",   *)
+(*     "splat" (constant vector, all elements val), "nonsplat",            *)
+(*     "elemundef" / "elemcexpr" (constant vector with an undef / constant *)
+(*     expression element), "undef",                                       *)
 (*     "poison", "cexpr" (ptrtoint expression), "cexpr2" (add of a         *)
 (*     ptrtoint), "ssa" (instruction operand that is not a constant)       *)
 (* w   integer width of the (element) type;  val  constant value or -1     *)
@@ -331,7 +333,7 @@ GepLists(U, F, t, shape, first, n) ==
 (* violates the property, and the harness uses the required operator only. *)
 (***************************************************************************)
 ImplVecLen(ix, classifierSeesType) ==
-  IF ix.f \in {"splat", "nonsplat", "ssa"} \/ classifierSeesType THEN ix.vec ELSE 0
+  IF ix.f \in {"splat", "nonsplat", "elemundef", "elemcexpr", "ssa"} \/ classifierSeesType THEN ix.vec ELSE 0
 GepResultTypeAsImplemented(U, elem, base, idxs, classifierSeesType) ==
   LET RECURSIVE W(_, _, _, _)
       W(t, n, rest, first) ==
